@@ -150,7 +150,8 @@ def main():
             if not skip_tests:
                 for tc in meta.get("tests_run", []):
                     tc2 = cargo_part(tc)
-                    if not tc2:
+                    tc2 = re.sub(r"\s--test seed_\w+", "", " " + tc2).strip()   # demo targets are not "existing tests"
+                    if not tc2 or re.fullmatch(r"cargo test -p \S+( --features \S+)?( --offline)?( -j\d+)?( --no-run)?", tc2) and "--test seed_" in tc:
                         continue
                     # the demo file is a new test: exclude it from "existing tests" by removing it first
                     for rel in demo_files:
